@@ -16,15 +16,24 @@ def jobs(tier):
     J.append(Job('set_code', 'harness/c17_code.c', 'h_set_code', defines={'NDEBUG': None}, anns=['annot/code.ann'],
                  unwind=20, object_bits=10, solver='cadical', timeout=600, no_standard_checks=True))
     model = [('rename_def', '_MIR_set_code', '_MIR_set_code__real', 'vp_model_set_code')]
+    W = {}
     for f in ('update_code_arr', 'change_code', 'add_code'):
         j = Job('window.' + f, 'harness/c17_code.c', 'h_' + f, defines={'NDEBUG': None, 'VP_SET_CODE_MODEL': None},
                 ops=model, unwind=6, object_bits=10, solver='cadical', timeout=600, no_standard_checks=True,
                 scope=['_MIR_set_code', 'vp_ctx_setup'])
         j.count_funcs = {'_MIR_update_code_arr', '_MIR_change_code', 'add_code'}
-        if f == 'update_code_arr':
-            j.kind = 'bounded'
-            j.bound = 'at most 3 relocations (the max-offset loop is unwound), offsets <= 2^40'
-        J.append(j)
+        W[f] = j
+    # _MIR_update_code_arr: the max-offset loop is closed by a loop contract (annot/code.ann) for any number of
+    # relocations up to the capacity of the harness array (256); the former bounded job (<= 3 relocations, loop
+    # unwound) is its bounded fallback: it runs only when the loop contract no longer fits the code
+    W['update_code_arr'].name = 'window.update_code_arr#bounded-fallback'
+    W['update_code_arr'].kind = 'bounded'
+    W['update_code_arr'].bound = 'at most 3 relocations (the max-offset loop is unwound), offsets <= 2^40'
+    j = Job('window.update_code_arr', 'harness/c17_code.c', 'h_update_code_arr_lc', defines={'NDEBUG': None, 'VP_SET_CODE_MODEL': None},
+            ops=model, anns=['annot/code.ann'], unwind=6, object_bits=10, solver='cadical', timeout=600, no_standard_checks=True,
+            scope=['_MIR_set_code', 'vp_ctx_setup'], fallback=W['update_code_arr'])
+    j.count_funcs = {'_MIR_update_code_arr'}
+    J += [j, W['change_code'], W['add_code']]
     lt = Job('gen.looptree_pairing', 'harness/c17_looptree.c', 'h_looptree_pairing', defines={'NDEBUG': None}, unwind=3, object_bits=10, solver='cadical',
              timeout=300, no_standard_checks=True,
              ops=[('slice_cond', 'generate_func_code',
